@@ -1,15 +1,17 @@
 #!/bin/bash
-# usage: extract.sh <repo> <facts_out_dir>   -- runs the fact extractor over the workspace
+# usage: extract.sh <repo-or-crate> <facts_out_dir> [--lib-only]  -- runs the fact extractor
 set -u
-REPO=$1; OUT=$2
+REPO=$1; OUT=$2; MODE=${3:-}
 T=$(mktemp -d /tmp/bourse-facts-target.XXXXXX)
 trap 'rm -rf "$T"' EXIT
 mkdir -p "$OUT"
 cd "$REPO" || exit 2
+ARGS="--locked --workspace --all-targets"
+[ "$MODE" = "--lib-only" ] && ARGS="--lib"
 LD_LIBRARY_PATH=$(rustc +nightly --print sysroot)/lib \
 RUSTFLAGS="-Zmir-opt-level=0 -Awarnings" \
 RUSTC_WORKSPACE_WRAPPER=/verif/driver/target/release/bourse-facts \
 BOURSE_FACTS_DIR="$OUT" CARGO_TARGET_DIR="$T" CARGO_NET_OFFLINE=true \
-cargo +nightly check --offline --locked --workspace --all-targets > "$OUT/cargo.log" 2>&1
+cargo +nightly check --offline $ARGS > "$OUT/cargo.log" 2>&1
 rc=$?
 exit $rc
